@@ -2107,3 +2107,39 @@ func dataSliceHasMarker(p *Program, v ssa.Value, endMarker *types.Var, area stri
 	}
 	return false
 }
+
+// ---- PAGES-COUNT (C05): the number of pages reported with a flush range is the length of that range ----
+
+// rulePAGESCOUNT: buffer.Pages hands the flush a page range [start, end) and the number of pages in it;
+// Writer.doFlush derives from that number how many pages it has to allocate and asserts the result.  When
+// the range stops before the end of the buffer's page list (end != nil: the pages behind belong to an event
+// that is still being written) the number cannot be the buffer's total page count.  (D17: it was — a flush
+// in the middle of an event that had already spilled onto further pages panicked.)
+func rulePAGESCOUNT(p *Program, rep *Report) {
+	rep.Rule("PAGES-COUNT", 1, "on every return of buffer.Pages with a range that ends before the end of the page list (end is not the nil constant) the page count returned does not derive from buffer.countPages, the total number of buffered pages: it has to be the length of the returned range")
+	fn := p.Method("pq", "buffer", "Pages")
+	total := p.FieldVar("pq", "buffer", "countPages")
+	rep.Analysed(funcName(fn))
+	n := 0
+	for _, b := range fn.Blocks {
+		r, ok := b.Instrs[len(b.Instrs)-1].(*ssa.Return)
+		if !ok || len(r.Results) != 3 {
+			continue
+		}
+		end, cnt := retVal(r, 1), retVal(r, 2)
+		if isNilConst(end) {
+			continue
+		}
+		n++
+		key := fmt.Sprintf("buffer.Pages|return@%s", strings.TrimPrefix(p.InstrPos(r), "pq/"))
+		key = "buffer.Pages|partial-range-count"
+		if dataSliceHas(p, cnt, nil, total, nil) {
+			rep.Bad("PAGES-COUNT", key, p.InstrPos(r), "buffer.Pages returns a page range that ends before the end of the buffer's page list together with a count derived from buffer.countPages (all buffered pages): when the event being written has already spilled onto pages behind the range, Writer.doFlush expects more page allocations than the range needs and its allocation-counter invariant panics — a flush in the middle of a streamed event kills the producer")
+		} else {
+			rep.OK("PAGES-COUNT", key, p.InstrPos(r), "count computed from the returned range")
+		}
+	}
+	if n == 0 {
+		rep.Unknown("PAGES-COUNT", "buffer.Pages", p.Pos(fn.Pos()), "buffer.Pages has no return with a partial range (anchor lost)")
+	}
+}
